@@ -182,6 +182,37 @@ func run(tb ev.TB, c groupCase) (labels []string, nontrivial bool) {
 		lg := kafka.LoggerFunc(func(f string, a ...interface{}) { fmt.Fprintf(os.Stderr, "LOG "+f+"\n", a...) })
 		cfg.Logger, cfg.ErrorLogger = lg, lg
 	}
+	// a reference ticker at the interval the "too few heartbeats" rules count with, in this process, for the length of the
+	// case: what it manages to deliver is what a heartbeat loop could have delivered on this machine at this moment
+	var refMu sync.Mutex
+	var refTicks []time.Time
+	refStop := make(chan struct{})
+	go func() {
+		tk := time.NewTicker(beatFloor(hb))
+		defer tk.Stop()
+		for {
+			select {
+			case at := <-tk.C:
+				refMu.Lock()
+				refTicks = append(refTicks, at)
+				refMu.Unlock()
+			case <-refStop:
+				return
+			}
+		}
+	}()
+	defer close(refStop)
+	refBetween := func(from, to time.Time) int {
+		refMu.Lock()
+		defer refMu.Unlock()
+		n := 0
+		for _, at := range refTicks {
+			if at.After(from) && at.Before(to) {
+				n++
+			}
+		}
+		return n
+	}
 	cg, err := kafka.NewConsumerGroup(cfg)
 	if err != nil {
 		tb.Fatalf("harness: %v", err)
@@ -750,7 +781,11 @@ func run(tb ev.TB, c groupCase) (labels []string, nontrivial bool) {
 					n++
 				}
 			}
-			if want := int(gap/beatFloor(hb)) / 4; n < want {
+			want := int(gap/beatFloor(hb)) / 4
+			if r := refBetween(syncedAt, waitEnd) / 4; r < want {
+				want = r
+			}
+			if n < want {
 				fail("c15/heartbeats-missing-before-next", "generation %d was joined and synced %v before Next was called for it; with HeartbeatInterval %v only %d heartbeats were sent in between (a quarter of the expected number is %d)", id, gap, hb, n, want)
 				return
 			}
@@ -758,6 +793,9 @@ func run(tb ev.TB, c groupCase) (labels []string, nontrivial bool) {
 		}
 		if life >= 10*hb+time.Second {
 			want := int(life/beatFloor(hb)) / 4
+			if r := refBetween(gi.start, live) / 4; r < want {
+				want = r
+			}
 			if gi.beats < want {
 				fail("c15/heartbeats-missing", "generation %d lived %v with HeartbeatInterval %v but sent only %d heartbeats (a quarter of the expected number is %d)", id, life, hb, gi.beats, want)
 				return
